@@ -305,6 +305,7 @@ class Stats:
         self.loud_failures = 0
         self.sweep_variants = 0
         self.header_alone = 0
+        self.tool_lines = set()
         self.sessions = 0
         self.session_invocations = 0
         self.session_outcomes = {}
@@ -324,7 +325,7 @@ def fault_kind(f):
         return "write:" + f["kind"]
     if f["op"] == "git":
         return "git:" + f["kind"]
-    if f["op"] in ("interrupt", "memerror"):
+    if f["op"] in ("interrupt", "memerror", "kill"):
         return f["op"]
     return "%s:%s" % (f["op"], f.get("errno"))
 
@@ -385,6 +386,7 @@ def run_campaign(tier, seed, jobs, only_runs=None):
                 if "base_git" in fplan:
                     stats.bump(stats.faults_planned, "git:" + fplan["env"]["git"])
                     stats.bump(stats.git_outcomes, fplan["env"]["git"])
+                stats.tool_lines.update(frec["sim"].get("lines_hit", []))
                 for f in frec["sim"]["delivered"]:
                     stats.bump(stats.faults_delivered, fault_kind(f))
                 for k, v in frec["sim"]["probes"].items():
@@ -415,6 +417,7 @@ def run_campaign(tier, seed, jobs, only_runs=None):
             recs = [rec]
             with stats.lock:
                 stats.fault_free += 1
+                stats.tool_lines.update(tres.get("lines_hit", []))
                 stats.max_steps = max(stats.max_steps, tres["steps"])
                 stats.bump(stats.toolchains, _oracle.toolchain_id(plan["toolchain"]["a"]))
                 if plan["toolchain"].get("b"):
@@ -485,7 +488,7 @@ def run_campaign(tier, seed, jobs, only_runs=None):
                 records[ix].extend(ex.map(one, variants))
             say("  sweep %s: %d fault variants over %d input files, %d output bytes, %d steps (%.0f s)" % (plan["run"], len(variants), len(tres["opened"]), tres["out_len"], tres["steps"], _perf() - t0))
         # sessions: sequences of invocations on one simulated machine
-        splans = _plan.session_plans(tree, seed, tier)
+        splans = _plan.session_plans(tree, seed, tier) + _plan.crash_sweep_sessions(tree, seed, tier)
         if only_runs:
             splans = [p for p in splans if str(p["run"]) in only_runs]
 
@@ -711,6 +714,15 @@ def replay(path, as_json=False, jobs=4):
 # evidence
 
 
+def tool_line_coverage(stats):
+    try:
+        exe = _env.executable_lines(_tree.tool_path())
+    except Exception as e:  # measurement only
+        return {"error": repr(e)}
+    hit = exe & stats.tool_lines
+    return {"executable_lines": len(exe), "reached": len(hit), "not_reached": sorted(exe - hit)[:40]}
+
+
 def write_evidence(tier, seed, t0, ctx, stats, cov, det, exitm, reported, known_hits, cfg, records=None, plans=None, selftest_failed=False):
     wall = _perf() - t0
     samples = []
@@ -749,6 +761,7 @@ def write_evidence(tier, seed, t0, ctx, stats, cov, det, exitm, reported, known_
             "faulty_executions": stats.faulty,
             "systematic_sweep_fault_variants": stats.sweep_variants,
             "standalone_header_compiles": stats.header_alone,
+            "tool_line_coverage": tool_line_coverage(stats),
             "sessions": {"sessions": stats.sessions, "invocations": stats.session_invocations, "outcomes": dict(sorted(stats.session_outcomes.items()))},
             "runs_per_hour": int(runs / wall * 3600) if wall > 0 else 0,
             "builds": ctx.builder.n_builds,
